@@ -339,6 +339,11 @@ namespace pika::threads::detail {
                                 is_active_wrapper utilization(counters.is_active_);
                                 auto* thrdptr = get_thread_id_data(thrd);
 
+                                // Record the worker before the thread runs: a resume that races
+                                // with the thread's suspension reads this as its scheduling hint
+                                // before the thread has reached its own update in do_yield.
+                                thrdptr->set_last_worker_thread_num(num_thread);
+
                                 // Record time elapsed in thread changing state
                                 // and add to aggregate execution time.
                                 exec_time_wrapper exec_time_collector(idle_rate);
